@@ -39,6 +39,10 @@ structure PairRec where
   fwdCount : Nat := 0
   /-- the incoming add was forgotten at a reconnect and its id was taken by another htlc. -/
   dead : Bool := false
+  /-- the INCOMING channel of this payment was flapped (link stopped, switch up) while the
+  incoming htlc was locked in and nothing had been offered downstream: the precondition of the
+  known finding F-C08-halfopen-circuit-lost-packet. -/
+  inFlapLocked : Bool := false
 
 structure PayRec where
   n : Nat
@@ -81,6 +85,11 @@ structure St where
   qStalePlain : Nat := 0
   /-- Bob's half-open circuits that were NOT loaded from disk (switch still up). -/
   orphanHalfOpen : List String := []
+  /-- a connection cut that has not been followed by a reconnect yet ("" = none). -/
+  openCut : String := ""
+  harnessOpenCut : Nat := 0
+  unclaimedSeen : Nat := 0
+  parkedAtStart : Nat := 0
   -- totals
   lines : Nat := 0
   cases : Nat := 0
@@ -320,7 +329,7 @@ def quiescenceChecks (s : St) (dirty : Bool) : IO St := do
     -- every dangling htlc is a locked-in incoming htlc whose circuit is half-open in the running
     -- switch (not loaded from disk) while no add packet exists any more, and nothing else is left
     let onlyOrphan := dirty && !dangling.isEmpty &&
-      dangling.all (fun pr => pr.obs.up == .locked && pr.obs.down == .absent &&
+      dangling.all (fun pr => pr.obs.up == .locked && pr.obs.down == .absent && pr.inFlapLocked &&
         s.orphanHalfOpen.contains s!"{pr.chUp}.{pr.idUp}") &&
       s.bobCirc == some (dangling.length, 0, 0) && s.fwdUnacked == dangling.length
     let tag := (if onlyShifted then " only_unacked_shifted=1" else "") ++ (if onlyMisread then " only_misread_fwdfilter=1" else "")
@@ -414,7 +423,7 @@ def step (s : St) (line : String) : IO St := do
     let s := { s with caseId := id, kind := kind, status := status, pairs := #[], pays := #[],
                        initEnds := [], qEnds := [], bobCirc := none, fwdUnacked := 0, caseWire := 0,
                        caseRestarts := 0, caseViol := 0, caseCause := "", misread := [],
-                       qStaleShifted := 0, qStalePlain := 0, caseCrashes := 0, caseFlaps := 0, failsUnacked := 0, orphanHalfOpen := [],
+                       qStaleShifted := 0, qStalePlain := 0, caseCrashes := 0, caseFlaps := 0, failsUnacked := 0, orphanHalfOpen := [], openCut := "",
                        cases := s.cases + 1, kinds := bump s.kinds kind }
     if status != "ran" then return { s with inconclSetup := s.inconclSetup + 1, inconclOther := s.inconclOther + 1 }
     return s
@@ -428,18 +437,22 @@ def step (s : St) (line : String) : IO St := do
     else return s
   | "w" :: rest => wireStep s rest
   | "x" :: "restart" :: _ =>
-    let s := { s with restarts := s.restarts + 1, caseRestarts := s.caseRestarts + 1 }
+    let s := { s with restarts := s.restarts + 1, caseRestarts := s.caseRestarts + 1, openCut := "" }
     let s ← feedAll s "AB" .restart .restart "restart"
     -- an outgoing add that was forgotten gives its id back
     return { s with pairs := s.pairs.map (fun (pr : PairRec) =>
       if pr.obs.down == .absent then { pr with idDown := none } else pr) }
-  | "x" :: "cut" :: _ => return { s with cuts := s.cuts + 1 }
+  | "x" :: "cut" :: rest =>
+    return { s with cuts := s.cuts + 1, openCut := (kv? rest "scope").getD "ALL" }
   | "x" :: "crash" :: rest =>
-    return { s with crashes := s.crashes + 1, crashKinds := bump s.crashKinds ((kv? rest "after").getD "?"),
+    return { s with openCut := "ALL", crashes := s.crashes + 1, crashKinds := bump s.crashKinds ((kv? rest "after").getD "?"),
                     caseCrashes := s.caseCrashes + 1 }
   | "x" :: "flap" :: rest =>
     let ch := (kv? rest "ch").getD "AB"
-    let s := { s with flaps := s.flaps + 1, caseFlaps := s.caseFlaps + 1 }
+    let s := { s with flaps := s.flaps + 1, caseFlaps := s.caseFlaps + 1,
+                      openCut := if s.openCut == ch then "" else s.openCut }
+    let s := { s with pairs := s.pairs.map (fun (pr : PairRec) =>
+      if pr.chUp == ch && pr.obs.up == .locked && pr.obs.down == .absent then { pr with inFlapLocked := true } else pr) }
     let s ← feedAll s ch .flapUp .flapDown s!"reconnect {ch}"
     return { s with pairs := s.pairs.map (fun (pr : PairRec) =>
       if pr.obs.down == .absent then { pr with idDown := none } else pr) }
@@ -462,7 +475,9 @@ def step (s : St) (line : String) : IO St := do
     | none => mismatch s "bad init line"
   | "q" :: "circ" :: rest =>
     if kv? rest "node" == some "bob" then
-      return { s with bobCirc := some ((kvNat? rest "pending").getD 0, (kvNat? rest "open").getD 0, (kvNat? rest "mailbox").getD 0) }
+      return { s with bobCirc := some ((kvNat? rest "pending").getD 0, (kvNat? rest "open").getD 0,
+                        (kvNat? rest "mailbox").getD 0 + (kvNat? rest "unclaimed").getD 0),
+                      unclaimedSeen := s.unclaimedSeen + (kvNat? rest "unclaimed").getD 0 }
     else return s
   | "q" :: "fwd" :: rest =>
     let adds := (kvNat? rest "adds").getD 0
@@ -487,8 +502,16 @@ def step (s : St) (line : String) : IO St := do
     let st := (kv? rest "state").getD "?"
     return { s with pays := s.pays.map (fun (p : PayRec) => if p.n == n then { p with inv := st } else p) }
   | "info" :: _ => return s
+  | "note" :: "bob" :: "switch" :: "started" :: rest =>
+    return { s with parkedAtStart := s.parkedAtStart + (kvNat? rest "unclaimed").getD 0 }
   | "note" :: _ => return s
   | "quiesced" :: "=>" :: q :: _ =>
+    -- messages were dropped on a connection that never reconnected afterwards: the peers had no
+    -- chance to retransmit, the acceptor's life cycles are not comparable with the final state.
+    -- This is a harness schedule that must not happen; never judge it.
+    if s.openCut != "" then
+      IO.println s!"SAMPLE case={s.caseId} connection {s.openCut} was cut and never reconnected before quiescence: not judged"
+      return { s with harnessOpenCut := s.harnessOpenCut + 1, inconclOther := s.inconclOther + 1 }
     match q with
     | "yes" | "yes_noresult" =>
       quiescenceChecks { s with quiescent := s.quiescent + 1 } false
@@ -546,6 +569,9 @@ def main : IO Unit := do
   for (k, n) in s.crashKinds do IO.println s!"STAT crash_after_{k}={n}"
   IO.println s!"STAT link_flaps={s.flaps}"
   IO.println s!"STAT wire_error_messages={s.wireErr}"
+  IO.println s!"STAT responses_parked_unclaimed_at_switch_start={s.parkedAtStart}"
+  IO.println s!"STAT unclaimed_left_at_quiescence={s.unclaimedSeen}"
+  IO.println s!"STAT inconclusive_open_cut={s.harnessOpenCut}"
   IO.println s!"STAT inconclusive_excluding_tamper={s.inconclOther}"
   IO.println s!"STAT cuts={s.cuts}"
   IO.println s!"STAT result_ok={s.resOk}"
